@@ -38,6 +38,10 @@ impl PreprocessedText {
     }
 
     fn push<T: AsRef<Path>>(&mut self, s: &str, origin: Option<(T, Range)>) {
+        // An empty string adds no text; an empty key would shadow the next range.
+        if s.is_empty() {
+            return;
+        }
         let base = self.text.len();
         self.text.push_str(s);
 
